@@ -432,6 +432,27 @@ func Copy(c *Ctx) error {
 					}
 				}
 			}
+			// hard links on either side of a file-over-file collision
+			{
+				f := func(p string, seed int64, group int) model.Entry {
+					e := model.Entry{Path: p, Type: "file", Perm: 0644, Size: 9, DSeed: seed, Data: fileData(seed, 9), Mtime: uniqueMtime(), Group: group}
+					e.Content = model.ContentID(e.Data)
+					return e
+				}
+				twinSrc := model.Tree{f("x", 1, 7), f("y", 1, 7)}                  // x and y share an inode in the source
+				twinDst := model.Tree{f("keep", 2, 8), f("x", 2, 8)}               // x shares an inode with an unrelated destination entry
+				bothDst := model.Tree{f("keep", 2, 8), f("x", 2, 8), f("y", 3, 0)} // and y exists on its own
+				for _, sd := range [][2]model.Tree{{twinSrc, nil}, {twinSrc, twinDst}, {twinSrc, bothDst}, {{f("x", 4, 0)}, twinDst}, {{f("x", 4, 0), f("y", 5, 0)}, bothDst}} {
+					for _, sh := range []shape{{"/", "/", true, false}, {"x", "x", false, false}, {"*", "/", false, true}} {
+						for _, rep := range []bool{false, true} {
+							cc := def
+							cc.Kind, cc.Src, cc.Dst, cc.SrcArg, cc.DstArg, cc.Contents, cc.Wild, cc.Replace = "overlay", sd[0], sd[1], sh.src, sh.dst, sh.contents, sh.wild, rep
+							cc.Origin = "hardlinks"
+							cases = append(cases, cc)
+						}
+					}
+				}
+			}
 			c.Stats.Exhaustive = c.Thorough()
 			c.Stats.Note(fmt.Sprintf("overlay universe: %d source trees x %d destination trees (names x, y; absent/file/symlink/dir/dir+file/dir+dir) x %d request shapes x always-replace on/off = %d cases, %d run", len(srcs), len(dsts), len(shapes), n, len(cases)))
 			c.Stats.Rule = "one case = one copy.Copy call (and its repetition) over (source tree, destination tree, request shape, always-replace); non-trivial = source and destination collide on at least one path; distinct by the full input"
@@ -480,6 +501,18 @@ func Copy(c *Ctx) error {
 						add(model.Tree{mk("f")}, model.Tree{at(l, "data")}, "f", "data/", false, false, "dstArgIsLinkSlash")
 						add(model.Tree{mk("f")}, model.Tree{at(l, "data")}, "f", "data", false, false, "dstArgIsLink")
 						add(model.Tree{dirE("d"), mk("d/x")}, model.Tree{at(l, "data")}, "d", "data/sub", true, false, "dstArgDirThroughLink")
+						// a parent directory created on demand for an include match, where the destination holds a symlink
+						{
+							cc := def
+							cc.Kind, cc.Src, cc.Dst, cc.SrcArg, cc.DstArg, cc.Contents, cc.Follow, cc.Replace = "contain",
+								model.Tree{dirE("sub"), mk("sub/keep.txt"), mk("sub/other"), dirE("sub/deep"), mk("sub/deep/keep.txt")}, model.Tree{at(l, "sub")}, "/", "/", true, follow, rep
+							cc.Inc = []string{[]string{"sub/keep.txt", "sub/deep/keep.txt", "**/keep.txt"}[li%3]}
+							cc.Origin = fmt.Sprintf("onDemandParentIsLink/link%d", li)
+							cases = append(cases, cc)
+							cc.Inc, cc.Exc = nil, []string{"sub/other"}
+							cc.Origin = fmt.Sprintf("excludeWithLinkedParent/link%d", li)
+							cases = append(cases, cc)
+						}
 					}
 				}
 			}
@@ -490,6 +523,15 @@ func Copy(c *Ctx) error {
 					cc.Uid, cc.Gid = 1234, 4321
 					cc.Origin += "/utime+chown"
 					cases = append(cases, cc)
+					// and with a numeric or symbolic mode override (chmod follows links)
+					cm := cc
+					cm.Mode = 0751
+					cm.Origin += "+mode"
+					cases = append(cases, cm)
+					cs := cc
+					cs.Sym = "a+rwx"
+					cs.Origin += "+symbolicMode"
+					cases = append(cases, cs)
 				}
 			}
 			// '..'-laden path arguments (no symlink needed): each root is the '/' of its side, so '..' stops there
